@@ -35,7 +35,9 @@ StagePool == IF Pools = "full"
                THEN { LineEq(A), LineEq(N), LineNeq(KA), LineRe(RCat(RLit(110), RCat(RLit(61), RAny))), LineNre(RCat(RLit(61), RLit(98))),
                       LabelM(K, "eq", A), LabelM(APP, "neq", A), LabelNum(N, "gt", <<53>>, 5), LabelNum(N, "lte", <<53>>, 5),
                       [t |-> "logfmt"], [t |-> "distinct", label |-> K], [t |-> "distinct", label |-> APP], [t |-> "unpack"],
-                      [t |-> "linefmt", parts |-> << [t |-> "label", s |-> <<>>, name |-> APP] >>] }
+                      [t |-> "linefmt", parts |-> << [t |-> "label", s |-> <<>>, name |-> APP] >>],
+                      \* a regexp stage looks at the line without changing it: line filters behind it may still be offloaded
+                      [t |-> "regexp", val |-> ReText(RCat(RCap(K, RPlus(RCls(<<107, 110>>))), RLit(61))), re |-> RCat(RCap(K, RPlus(RCls(<<107, 110>>))), RLit(61))] }
                ELSE { LineEq(N), LineNeq(Bb), LineRe(RCat(RLit(61), RLit(98))), LabelM(K, "eq", A), LabelNum(N, "gt", <<53>>, 5),
                       [t |-> "logfmt"], [t |-> "distinct", label |-> K], [t |-> "distinct", label |-> APP], [t |-> "unpack"],
                       [t |-> "linefmt", parts |-> << [t |-> "label", s |-> <<>>, name |-> APP] >>] }
@@ -82,7 +84,7 @@ RECURSIVE OffloadLines(_, _)
 OffloadLines(sts, k) ==
   IF k > Len(sts) THEN <<>>
   ELSE IF sts[k].t = "line" THEN (IF sts[k].op \in capF THEN <<sts[k]>> ELSE <<>>) \o OffloadLines(sts, k + 1)
-  ELSE IF sts[k].t \in {"label", "logfmt", "json", "pattern", "labelfmt", "drop", "keep"} THEN OffloadLines(sts, k + 1)     \* do nothing on the line: skip
+  ELSE IF sts[k].t \in {"label", "logfmt", "json", "pattern", "regexp", "labelfmt", "drop", "keep"} THEN OffloadLines(sts, k + 1)     \* do nothing on the line: skip
   ELSE <<>>       \* line_format, decolorize, unpack rewrite the line, distinct has memory: later line filters stay in the engine
 Plan == pc = "plan" /\ pc' = "select"
         /\ offLabels' = SelectSeq(sel, LAMBDA m : m.op \in capL)
